@@ -442,7 +442,7 @@ func c11Run(b *core.B) {
 	r := b.Rng(1)
 	nGraphs := 2
 	if b.Tier == core.Thorough {
-		nGraphs = 8
+		nGraphs = 24
 	}
 	roots := []c11Root{{"root", tNode}, {"proot", tPNode}, {"nodes", reflect.TypeOf([]PNode{})}, {"nmap", reflect.TypeOf(map[string]PNode{})}}
 	maxLen := 4
@@ -482,7 +482,7 @@ func c11Run(b *core.B) {
 		// random longer walks
 		n := 6000
 		if b.Tier == core.Thorough {
-			n = 150000
+			n = 400000
 		}
 		for i := 0; i < n/b.NBatches; i++ {
 			root := roots[r.Intn(len(roots))]
